@@ -463,11 +463,39 @@ func vbEnc(n uint64) []byte {
 
 // mutate returns a damaged variant of a frame.
 func (g *G) mutate(f []byte) []byte {
+	out := g.mutate1(f)
+	// The model's reader is quadratic in the number of fields; a large frame re-read as
+	// thousands of tiny fields would take minutes there. Large frames stay unmutated in
+	// the correspondence suites (the oracles run them on the implementation alone).
+	if len(out) > 6000 {
+		return f
+	}
+	return out
+}
+
+func (g *G) mutate1(f []byte) []byte {
 	out := append([]byte{}, f...)
 	if len(out) == 0 {
 		return out
 	}
-	switch g.pick(8) {
+	switch g.pick(10) {
+	case 8: // set a byte to a defined property identifier (swaps identifiers, creates repeats)
+		ids := []byte{1, 2, 3, 8, 9, 11, 17, 18, 19, 21, 22, 23, 24, 25, 26, 28, 31, 33, 34, 35, 36, 37, 38, 39, 40, 41, 42}
+		out[g.pick(len(out))] = ids[g.pick(len(ids))]
+	case 9: // repeat a slice of the body (duplicates properties), re-frame
+		_, hl := splitFrame(out)
+		if hl > 0 && hl < len(out) {
+			body := append([]byte{}, out[hl:]...)
+			i := g.pick(len(body))
+			j := i + 1 + g.pick(len(body)-i)
+			dup := append([]byte{}, body[i:j]...)
+			body = append(body[:j], append(dup, body[j:]...)...)
+			// bump a plausible property length in front of the repeated part
+			if i > 0 && g.chance(70) {
+				body[g.pick(i)] += byte(len(dup))
+			}
+			out = append(append([]byte{out[0]}, vbEnc(uint64(len(body)))...), body...)
+		}
 	case 0: // flip a byte
 		out[g.pick(len(out))] ^= byte(1 << g.pick(8))
 	case 1: // random byte
@@ -549,11 +577,15 @@ func gen(suite string, seed int64, n int, emit func(string)) {
 			g.big = g.chance(5)
 			cs := g.subset(k, 20+g.pick(70))
 			ws := "A"
+			tag := 1 + g.pick(9)
+			if g.chance(30) {
+				tag = 100 + g.pick(4) // io.ErrShortWrite, io.EOF, io.ErrClosedPipe, io.ErrUnexpectedEOF
+			}
 			switch g.pick(4) {
 			case 0:
-				ws = "F" + strconv.Itoa(1+g.pick(9))
+				ws = "F" + strconv.Itoa(tag)
 			case 1:
-				ws = fmt.Sprintf("S%d:%d", g.pick(30), 1+g.pick(9))
+				ws = fmt.Sprintf("S%d:%d", g.pick(30), tag)
 			}
 			emit("W " + strconv.Itoa(k) + " " + ws + sp(cs))
 		}
@@ -722,8 +754,21 @@ func genWire(g *G, n int, emit func(string)) {
 			d = []byte{byte(g.pick(256))}
 		}
 		old := zero[k]
-		if k == "bin" && g.chance(30) {
-			old = "S" + hexs(g.bytesN(1+g.pick(5)))
+		if g.chance(30) { // decode into a destination that already holds a value
+			switch k {
+			case "bin", "raw":
+				old = "S" + hexs(g.bytesN(1+g.pick(5)))
+			case "bool":
+				old = "B1"
+			case "u8":
+				old = "N" + strconv.FormatUint(g.u8(), 10)
+			case "u16":
+				old = "N" + strconv.FormatUint(g.u16(), 10)
+			case "u32":
+				old = "N" + strconv.FormatUint(g.u32(), 10)
+			case "vb":
+				old = "N" + strconv.FormatUint(g.subID(), 10)
+			}
 		}
 		emit("WDEC " + k + " " + old + " " + hexs(d))
 		// encoders
@@ -805,6 +850,9 @@ func genRead(g *G, n int, emit func(string)) {
 			emit("R 2 " + sc)
 		case 9: // every type nibble over a valid body
 			f := g.validFrame()
+			if len(f) > 6000 {
+				f = []byte{0x40, 2, 0, 1}
+			}
 			f[0] = byte(g.pick(16)<<4) | byte(g.pick(16))
 			emit("R 2 " + hexs(f))
 		}
